@@ -153,7 +153,8 @@ def run(ctx):
     ctx.rule = ('(a) ALL opacity patterns of every view up to 3x3 and 2x4 (thorough: up to 3x5, 4x3, 4x4) with the agent on the bottom row: masks of '
                 'partially_occluded and raytracing vs model, agent visible, chain, monotonicity under clearing one visible opaque cell; '
                 '(b) random states/areas: replace each hidden or out-of-view WORLD cell by every object of a 12-object alphabet and compare the real '
-                'observations; (c) stochastic_raytracing: seeds and scripted u (0.0, just below 1) against the deterministic mask; '
+                'observations, and the same world with every door toggled (chain clause, model); (c) stochastic_raytracing: seeds and scripted u (0.0, just below 1) against the '
+                'deterministic mask, sparse pillar boards, one corridor deeper than 100 cells; (d) one Grid object looked at, changed in place (door statuses, assignments, swaps), looked at again; '
                 'non-trivial = the view contains at least one opaque cell that hides something')
     reqs, metas = [], []
     shapes = [(h, w) for h in (1, 2, 3) for w in (1, 2, 3)] + [(1, 4), (2, 4)] if ctx.tier == 'quick' else [(h, w) for h in (1, 2, 3) for w in (1, 2, 3, 4, 5)] + [(4, 3), (4, 4)]
